@@ -374,6 +374,11 @@ Definition reader_panics (d : doc) : bool :=
 (* map_to_problem_with_approx: create_approx_matrices runs BEFORE validation; get_approx_transportation asserts
    !speeds.is_empty(), i.e. at least one profile *)
 Definition approx_panics (d : doc) : bool := match d_profiles d with [] => true | _ => false end.
+(* the same step for any document read without matrices: `if coord_index.has_indices() { vec![] } else { create_approx_matrices(..) }`;
+   create_approx_matrices -> get_approx_transportation asserts !speeds.is_empty() and speed > 0 for every speed
+   (speed = profile.speed.unwrap_or(10); `speeds` = the speeds given explicitly).  With an index location nothing is approximated. *)
+Definition pre_validation_panics (has_indices : bool) (profiles : list string) (speeds : list Z) : bool :=
+  negb has_indices && (is_nil profiles || existsb (fun s => s <=? 0) speeds).
 Definition validate_approx (d : doc) : vres := if approx_panics d then VPanic else validate d.
 
 Inductive rres := ROk | RErr (cs : list Z) | RPanic.
